@@ -571,12 +571,10 @@ theorem keepAlive_only_client (h : CH) (i : In) (hk : keepAlive h = true)
       cases hr : (ClientHandler.poll ClientHandler.pollFuel h.client env.client []).2.1 <;>
         rw [hr] at hn' <;> exact hn'
 
-/-- A message forwarded to the behaviour comes from one of the connection's own substreams and is
-what that substream's `poll_next` returned. -/
-theorem incoming_origin (h : CH) (hnd : Proofs.Inbound.Nodup h.streams) (env : Env)
-    (hord : env.order.Nodup) (sid m : Nat) (hm : Out.ev (.incoming sid m) ∈ (poll h env).2) :
-    sid ∈ env.order ∧ ∃ s, h.streams.lookup sid = some s ∧
-      (Inbound.poll s (env.inbound sid).reads (env.inbound sid).procs).2 = .item m := by
+/-- A message in the outputs of `poll` is the item `SelectAll` returned. -/
+theorem incoming_is_selected (h : CH) (env : Env) (sid m : Nat)
+    (hm : Out.ev (.incoming sid m) ∈ (poll h env).2) :
+    (Inbound.selectPoll h.streams env.inbound env.order).2 = some (sid, m) := by
   generalize hsp : Inbound.selectPoll h.streams env.inbound env.order = sp
   obtain ⟨ss, o⟩ := sp
   cases o with
@@ -585,8 +583,7 @@ theorem incoming_origin (h : CH) (hnd : Proofs.Inbound.Nodup h.streams) (env : E
     rw [poll_some h env ss sid' m' hsp] at hm
     simp only [List.mem_singleton, Out.ev.injEq, Ev.incoming.injEq] at hm
     obtain ⟨rfl, rfl⟩ := hm
-    exact Proofs.Inbound.selectPoll_item h.streams hnd env.inbound env.order hord sid m
-      (by rw [hsp])
+    rfl
   | none =>
     exfalso
     rw [poll_none h env ss hsp] at hm
@@ -618,5 +615,22 @@ theorem incoming_origin (h : CH) (hnd : Proofs.Inbound.Nodup h.streams) (env : E
       · exact hc _ hm
       · exact hs _ hm
       · cases hr2 : (ServerSink.poll h.server env.server).2.1 <;> rw [hr2] at hm <;> simp at hm
+
+/-- A message forwarded to the behaviour comes from one of the connection's own substreams and is
+what that substream's `poll_next` returned. -/
+theorem incoming_origin (h : CH) (hnd : Proofs.Inbound.Nodup h.streams) (env : Env)
+    (hord : env.order.Nodup) (sid m : Nat) (hm : Out.ev (.incoming sid m) ∈ (poll h env).2) :
+    sid ∈ env.order ∧ ∃ s, h.streams.lookup sid = some s ∧
+      (Inbound.poll s (env.inbound sid).reads (env.inbound sid).procs).2 = .item m :=
+  Proofs.Inbound.selectPoll_item h.streams hnd env.inbound env.order hord sid m
+    (incoming_is_selected h env sid m hm)
+
+/-- … and, however often `SelectAll` presents the substreams in one call, from a substream of this
+connection that exists and was polled. -/
+theorem incoming_origin_any (h : CH) (env : Env) (sid m : Nat)
+    (hm : Out.ev (.incoming sid m) ∈ (poll h env).2) :
+    sid ∈ env.order ∧ (h.streams.lookup sid).isSome = true :=
+  Proofs.Inbound.selectPoll_item_any h.streams env.inbound env.order sid m
+    (incoming_is_selected h env sid m hm)
 
 end Beetswap.Proofs.ConnHandler
